@@ -240,7 +240,15 @@ func (st *Staged) ReplayFileEnv(set string, path string, limit time.Duration, ra
 	}
 	ctx, cancel := context.WithTimeout(context.Background(), limit)
 	defer cancel()
-	cmd := exec.CommandContext(ctx, bin, "-test.run", "^TestVsymReplay$", "-test.count=1", "-test.timeout", (limit + 5*time.Second).String())
+	args := []string{"-test.run", "^TestVsymReplay$", "-test.count=1", "-test.timeout", (limit + 5*time.Second).String()}
+	cmd := exec.CommandContext(ctx, bin, args...)
+	for _, e := range extraEnv {
+		if e == "VSYM_NETNS=1" {
+			// private network namespace: lifecycle entries bind the fixed default ports
+			sh := "ip link set lo up 2>/dev/null; exec \"$0\" \"$@\""
+			cmd = exec.CommandContext(ctx, "unshare", append([]string{"-n", "sh", "-c", sh, bin}, args...)...)
+		}
+	}
 	cmd.Dir = filepath.Join(st.Repo, sets[set][0])
 	cmd.Env = append(cleanEnv("VSYM_REPLAY="+path), extraEnv...)
 	out, _ := cmd.CombinedOutput()
